@@ -321,4 +321,38 @@ def bcsrAddDoubleCsrBcsrCsr [Zero α] [Add α] [Mul α] (allow : Bool) (alpha : 
 
 end BcsrOps
 
+/-! ### the output vector of the row-loop members
+
+`lump_rows(lump)`, `row_norm2(row_norms)`, `row_norm2sqr(row_norms[, scal])` receive an existing vector and their kernels
+execute `for(row = 0; row < rows; ++row) { ...; out[row] = value(row); }` (BCSR: `out[bh*row + i] = 0; out[..] += ..`):
+the assignment is unconditional, also for a row without stored entries.  `writeAll` is that loop on an arbitrary
+pre-filled array; the `*Into` functions are what the driver executes (the harness pre-fills the vector with 777). -/
+section Into
+variable {α : Type}
+
+/-- `for(i = 0; i < n; ++i) out[i] = f i` on the pre-filled array `out0` -/
+def writeAll (f : Nat → α) (n : Nat) (out0 : Array α) : Array α :=
+  (List.range n).foldl (fun o i => o.setIfInBounds i (f i)) out0
+
+variable [Zero α] [Add α] [Mul α]
+
+def csrLumpInto (out0 : Array α) (A : Csr α) : Array α := writeAll (fun row => lumpRow (csrRow A row)) A.rows out0
+def csrRowNorm2SqrInto (out0 : Array α) (A : Csr α) : Array α := writeAll (fun row => rowNormSq (csrRow A row)) A.rows out0
+def csrRowNorm2Into (sqrt : α → α) (out0 : Array α) (A : Csr α) : Array α :=
+  writeAll (fun row => sqrt (rowNormSq (csrRow A row))) A.rows out0
+def csrRowNorm2SqrScaledInto (out0 : Array α) (A : Csr α) (scal : Array α) : Array α :=
+  writeAll (fun row => (csrRow A row).foldl (fun s p => s + scal.getD p.1 0 * (p.2 * p.2)) 0) A.rows out0
+/-- BCSR: entry `bh*row + i` of the list version, written for every `row < rows`, `i < bh` -/
+def bcsrLumpInto (out0 : Array α) (A : Bcsr α) : Array α :=
+  let l := (bcsrLump A).toArray
+  writeAll (fun k => l.getD k 0) (A.rows * A.bh) out0
+def bcsrRowNorm2SqrInto (out0 : Array α) (A : Bcsr α) (scal : Option (Array α)) : Array α :=
+  let l := (bcsrRowNorm2Sqr A scal).toArray
+  writeAll (fun k => l.getD k 0) (A.rows * A.bh) out0
+def bcsrRowNorm2Into (sqrt : α → α) (out0 : Array α) (A : Bcsr α) : Array α :=
+  let l := (bcsrRowNorm2 sqrt A).toArray
+  writeAll (fun k => l.getD k 0) (A.rows * A.bh) out0
+
+end Into
+
 end FeatModel.LA.MatAlg
